@@ -39,6 +39,7 @@ CORPUS = [["v", 0], ["v", 1], ["v", 2], ["v", 3], ["v", 5], ["v", 1000], ["v", -
           ["mi", 1], ["mi", 2], ["v", 1.0], ["v", 2.5], ["v", None],
           ["v", "a"], ["v", "ab"], ["v", "b"], ["v", "ba"], ["v", "abc"], ["v", ""], ["ms", "ab"],
           ["v", "{"], ["v", "{}"], ["v", "{arg}"], ["v", "{{"], ["v", "a'b"], ["v", 'a"b'], ["v", "a\\b"], ["v", "%d"], ["v", "+"], ["v", "+-"],
+          ["en", "RED"], ["en", "BLUE"], ["v", "inf"], ["v", "-inf"],
           ["t"], ["t", ["v", 1]], ["t", ["v", "a"]], ["t", ["v", 1], ["v", "a"]], ["t", ["v", "a"], ["v", 1]],
           ["t", ["mi", 1]], ["t", ["v", True]], ["t", ["t", ["v", 1]]], ["t", ["v", 1], ["v", 2], ["v", 3]],
           ["l"], ["l", ["v", 1]], ["l", ["v", "a"]], ["l", ["v", 1], ["v", "a"]], ["l", ["v", "a"], ["v", 1]],
@@ -56,7 +57,8 @@ def plan(tier):
 
 # strings with characters that mean something to str.format, %-formatting, repr and regular expressions: Literal values
 # end up inside generated source text
-LIT_VALUES = [0, 1, 2, 3, 5, 1000, -1, "a", "ab", "b", True, "{", "{}", "{arg}", "a'b", 'a"b', "a\\b", "%d", "+-"]
+LIT_VALUES = [0, 1, 2, 3, 5, 1000, -1, "a", "ab", "b", True, "{", "{}", "{arg}", "a'b", 'a"b', "a\\b", "%d", "+-",
+              ["en", "RED"], ["en", "BLUE"], ["mi", 2], ["v", "inf"]]     # values whose repr is not source text for the value
 
 
 def _gen_literal(rng, kmax=3):
